@@ -285,10 +285,11 @@ class Lithium:
         while True:
             temp_dir = Path(f"tmp{i}")
             # To avoid race conditions, we use try/except instead of exists/create
-            # Hopefully we don't get any errors other than "File exists" :)
+            # Only "File exists" means the name is taken; any other error is reported
+            # instead of being retried forever.
             try:
                 temp_dir.mkdir()
-            except OSError:
+            except FileExistsError:
                 i += 1
             else:
                 self.temp_dir = temp_dir
